@@ -34,6 +34,22 @@ class ReprRaises(object):
         raise RuntimeError('no repr for you (%s)' % self.v)
 
 
+class ReprRaisesBare(object):
+    def __init__(self, v):
+        self.v = v
+
+    def __repr__(self):
+        raise NotImplementedError
+
+
+class ReprRaisesKeyError(object):
+    def __init__(self, v):
+        self.v = v
+
+    def __repr__(self):
+        raise KeyError()
+
+
 class BadStr(object):
     def __init__(self, v):
         self.v = v
@@ -48,7 +64,8 @@ class BadStr(object):
 def make_value(kind, token):
     return {'str': token, 'bytes': token.encode(), 'int': int(''.join(str(ord(c) % 10) for c in token[:18])), 'float': 1.5,
             'list': [1, token, {'k': token}], 'dict': {'inner': [token, 2], token: 1}, 'tuple': (token, (token,)),
-            'reprobj': ReprEmbeds(token), 'reprraises': ReprRaises(token), 'long': token + 'x' * 200, 'markup': '<b>%s</b>&"' % token,
+            'reprobj': ReprEmbeds(token), 'reprraises': ReprRaises(token), 'reprraises-bare': ReprRaisesBare(token),
+            'reprraises-keyerror': ReprRaisesKeyError(token), 'long': token + 'x' * 200, 'markup': '<b>%s</b>&"' % token,
             'badstr': BadStr(token), 'none': None, 'nested': {'a': {'b': {'c': [token] * 3}}}, 'set': {token}}[kind]
 
 
@@ -61,13 +78,13 @@ ENDPOINTS = ['func', 'lambda', 'method', 'callable', 'static', 'classm', 'decora
 def strategy():
     from hypothesis import strategies as st
     res = st.tuples(st.one_of(st.sampled_from(NAMES_SECRET), st.sampled_from(NAMES_PLAIN)),
-                    st.one_of(st.sampled_from(VALUE_KINDS), st.sampled_from(VALUE_KINDS), st.just('reprraises')))
+                    st.one_of(st.sampled_from(VALUE_KINDS), st.sampled_from(VALUE_KINDS), st.sampled_from(['reprraises', 'reprraises-bare', 'reprraises-keyerror'])))
     return st.fixed_dictionaries({
         'resources': st.lists(res, max_size=6, unique_by=lambda r: r[0]),
         'endpoints': st.lists(st.sampled_from(ENDPOINTS), max_size=5),
         'static': st.booleans(),
         'subapp': st.sampled_from([None, 'plain', 'with-resources']),
-        'mws': st.lists(st.sampled_from(['cookie', 'cookie-named', 'gzip', 'stats', 'getparam', 'ctx', 'custom', 'set-provides', 'list-provides']),
+        'mws': st.lists(st.sampled_from(['cookie', 'cookie-named', 'gzip', 'stats', 'getparam', 'ctx', 'custom', 'set-provides', 'list-provides', 'bad-repr']),
                         max_size=3, unique=True),
         'mount': st.sampled_from(['/meta', '/_meta/', '/', '/a/b/meta', '/m<zq9>']),
         'depth': st.sampled_from([0, 0, 1, 2]),
@@ -168,6 +185,13 @@ def build(case):
 
         def request(self, next, request):
             return next(custom_val=1)
+    class BadReprMW(Middleware):
+        def request(self, next):
+            return next()
+
+        def __repr__(self):
+            raise RuntimeError()
+
     class SetProvides(Middleware):
         provides = frozenset(['lang', 'region'])     # any iterable of names is legal
 
@@ -189,7 +213,7 @@ def build(case):
                     'cookie-named': lambda: SignedCookieMiddleware(arg_name='sess', cookie_name='sid', secret_key=KEY + '-2'),
                     'gzip': lambda: GzipMiddleware(), 'stats': lambda: StatsMiddleware(), 'getparam': lambda: GetParamMiddleware(['q']),
                     'ctx': lambda: SimpleContextProcessor('extra'), 'custom': lambda: Custom(),
-                    'set-provides': lambda: SetProvides(), 'list-provides': lambda: ListProvides()}[m]())
+                    'set-provides': lambda: SetProvides(), 'list-provides': lambda: ListProvides(), 'bad-repr': lambda: BadReprMW()}[m]())
     mount = case['mount']
     meta_entry = (mount, MetaApplication())
     depth = case['depth']
@@ -234,7 +258,7 @@ def body(case, ctx):
         return
     secrets = dict((n, t) for n, (t, k) in tokens.items() if 'secret' in n)
     plain = dict((n, (t, k)) for n, (t, k) in tokens.items() if 'secret' not in n)
-    repr_fails = any(k == 'reprraises' for n, (t, k) in plain.items())
+    repr_fails = any(k.startswith('reprraises') for n, (t, k) in plain.items()) or 'bad-repr' in case['mws']
     forbidden = [t for t in secrets.values()] + [KEY]
     views = {}
     for view, path in (('html', prefix + '/'), ('json', prefix + '/json/')):
